@@ -1,0 +1,418 @@
+//! Verification hooks.  Compiled only with `--cfg gothenburgbitfactory_taskchampion_verif`; they
+//! give an external harness access to crate-private pieces (the sealing code, the object-store
+//! server over an in-memory object store) and let it interrupt or fail individual steps.  Nothing
+//! here is used by the library itself.
+#![allow(missing_docs)]
+use crate::errors::{Error, Result};
+use crate::server::cloud::CloudServer;
+use crate::server::encryption::{Cryptor, Sealed, Secret, Unsealed};
+use crate::server::{
+    AddVersionResult, GetVersionResult, HistorySegment, Server, Snapshot, SnapshotUrgency,
+    VersionId,
+};
+use async_trait::async_trait;
+use std::collections::BTreeMap;
+use std::future::Future;
+use std::pin::Pin;
+use std::sync::{Arc, Mutex};
+use std::task::{Context, Poll};
+use uuid::Uuid;
+
+/// Seal `payload` for `version_id` with the key derived from `secret` and `salt`.
+pub fn seal(salt: &[u8], secret: &[u8], version_id: Uuid, payload: Vec<u8>) -> Result<Vec<u8>> {
+    let c = Cryptor::new(salt, &Secret(secret.to_vec()))?;
+    Ok(c.seal(Unsealed {
+        version_id,
+        payload,
+    })?
+    .into())
+}
+
+/// Unseal bytes that were sealed for `version_id`.
+pub fn unseal(salt: &[u8], secret: &[u8], version_id: Uuid, bytes: Vec<u8>) -> Result<Vec<u8>> {
+    let c = Cryptor::new(salt, &Secret(secret.to_vec()))?;
+    Ok(c.unseal(Sealed {
+        version_id,
+        payload: bytes,
+    })?
+    .into())
+}
+
+/// A pre-derived key, so that many seal / unseal calls pay for PBKDF2 once.
+#[derive(Clone)]
+pub struct Key(Cryptor);
+
+impl Key {
+    pub fn derive(salt: &[u8], secret: &[u8]) -> Result<Key> {
+        Ok(Key(Cryptor::new(salt, &Secret(secret.to_vec()))?))
+    }
+    pub fn seal(&self, version_id: Uuid, payload: Vec<u8>) -> Result<Vec<u8>> {
+        Ok(self
+            .0
+            .seal(Unsealed {
+                version_id,
+                payload,
+            })?
+            .into())
+    }
+    pub fn unseal(&self, version_id: Uuid, bytes: Vec<u8>) -> Result<Vec<u8>> {
+        Ok(self
+            .0
+            .unseal(Sealed {
+                version_id,
+                payload: bytes,
+            })?
+            .into())
+    }
+}
+
+// ---------------------------------------------------------------------------------------------
+// deterministic replacement for the cleanup / urgency dice
+
+thread_local! {
+    static RAND_QUEUE: std::cell::RefCell<Option<u8>> = const { std::cell::RefCell::new(None) };
+}
+
+/// Make every `randint()` of the object-store server return `v` on this thread (None: real RNG).
+pub fn set_rand(v: Option<u8>) {
+    RAND_QUEUE.with(|q| *q.borrow_mut() = v);
+}
+
+pub(crate) fn next_rand() -> Option<u8> {
+    RAND_QUEUE.with(|q| *q.borrow())
+}
+
+// ---------------------------------------------------------------------------------------------
+// named failpoints between the internal steps of the local and git servers
+
+thread_local! {
+    static FAILPOINT: std::cell::RefCell<Option<(String, usize)>> = const { std::cell::RefCell::new(None) };
+    static FAILPOINT_LOG: std::cell::RefCell<Vec<String>> = const { std::cell::RefCell::new(Vec::new()) };
+}
+
+/// Arm a failpoint: the `nth` (1-based) time `name` is reached on this thread, it returns an error.
+pub fn arm_failpoint(name: &str, nth: usize) {
+    FAILPOINT.with(|f| *f.borrow_mut() = Some((name.to_string(), nth)));
+}
+
+pub fn disarm_failpoint() {
+    FAILPOINT.with(|f| *f.borrow_mut() = None);
+}
+
+/// The failpoints reached since the last call (in order).
+pub fn take_failpoint_log() -> Vec<String> {
+    FAILPOINT_LOG.with(|l| std::mem::take(&mut *l.borrow_mut()))
+}
+
+pub(crate) fn failpoint(name: &str) -> Result<()> {
+    FAILPOINT_LOG.with(|l| l.borrow_mut().push(name.to_string()));
+    FAILPOINT.with(|f| {
+        let mut f = f.borrow_mut();
+        if let Some((n, k)) = f.as_mut() {
+            if n == name {
+                if *k <= 1 {
+                    *f = None;
+                    return Err(Error::Server(format!("injected-fault at {name}")));
+                }
+                *k -= 1;
+            }
+        }
+        Ok(())
+    })
+}
+
+// ---------------------------------------------------------------------------------------------
+// an in-memory object store whose requests pass through a gate and can be failed
+
+#[derive(Clone, Copy, PartialEq, Eq, Debug)]
+pub enum Fault {
+    /// the request fails, nothing happens
+    Before,
+    /// the request is carried out, then reported as failed
+    After,
+}
+
+#[derive(Default)]
+pub struct StoreState {
+    /// name -> (creation time, value)
+    pub objects: BTreeMap<String, (u64, Vec<u8>)>,
+    /// creation time given to objects created from now on
+    pub clock: u64,
+    /// one line per request, in execution order: `c<client> <request> -> <result>`
+    pub log: Vec<String>,
+    /// per client: requests it may still perform before parking at the gate (None: not gated)
+    pub permits: Vec<Option<usize>>,
+    /// per client: parked at the gate
+    pub at_gate: Vec<bool>,
+    /// per client: fail the request with this 1-based index (counted per client since `reset_counts`)
+    pub faults: Vec<Option<(usize, Fault)>>,
+    pub counts: Vec<usize>,
+}
+
+pub type Store = Arc<Mutex<StoreState>>;
+
+pub fn new_store(clients: usize) -> Store {
+    Arc::new(Mutex::new(StoreState {
+        permits: vec![None; clients],
+        at_gate: vec![false; clients],
+        faults: vec![None; clients],
+        counts: vec![0; clients],
+        ..Default::default()
+    }))
+}
+
+/// One client's handle on the shared in-memory object store.
+pub struct MemService {
+    pub store: Store,
+    pub client: usize,
+}
+
+struct Gate {
+    store: Store,
+    client: usize,
+}
+
+impl Future for Gate {
+    type Output = ();
+    fn poll(self: Pin<&mut Self>, _cx: &mut Context<'_>) -> Poll<()> {
+        let mut s = self.store.lock().unwrap();
+        let c = self.client;
+        match s.permits[c] {
+            None => Poll::Ready(()),
+            Some(0) => {
+                s.at_gate[c] = true;
+                Poll::Pending
+            }
+            Some(n) => {
+                s.permits[c] = Some(n - 1);
+                s.at_gate[c] = false;
+                Poll::Ready(())
+            }
+        }
+    }
+}
+
+impl MemService {
+    async fn enter(&self) -> Option<Fault> {
+        Gate {
+            store: self.store.clone(),
+            client: self.client,
+        }
+        .await;
+        let mut s = self.store.lock().unwrap();
+        let c = self.client;
+        s.counts[c] += 1;
+        match s.faults[c] {
+            Some((i, k)) if i == s.counts[c] => {
+                s.faults[c] = None;
+                Some(k)
+            }
+            _ => None,
+        }
+    }
+    fn log(&self, line: String) {
+        let mut s = self.store.lock().unwrap();
+        let c = self.client;
+        s.log.push(format!("c{c} {line}"));
+    }
+}
+
+fn injected() -> Error {
+    Error::Server("injected-fault".into())
+}
+
+fn short(v: &[u8]) -> String {
+    if v.len() <= 40 && v.iter().all(|b| b.is_ascii_graphic()) {
+        String::from_utf8_lossy(v).to_string()
+    } else {
+        format!("<{} bytes>", v.len())
+    }
+}
+
+struct ListIter {
+    svc_store: Store,
+    client: usize,
+    names: Vec<String>,
+    pos: usize,
+    prefix: String,
+}
+
+#[async_trait]
+impl crate::server::cloud::VerifAsyncObjectIterator for ListIter {
+    async fn next(&mut self) -> Option<Result<crate::server::cloud::VerifObjectInfo>> {
+        // every listed name is one "page": it passes the gate on its own, and is reported only
+        // if the object still exists at that moment (weak listing)
+        loop {
+            if self.pos >= self.names.len() {
+                let mut s = self.svc_store.lock().unwrap();
+                let c = self.client;
+                s.log.push(format!("c{c} list {} end", self.prefix));
+                return None;
+            }
+            Gate {
+                store: self.svc_store.clone(),
+                client: self.client,
+            }
+            .await;
+            let name = self.names[self.pos].clone();
+            self.pos += 1;
+            let mut s = self.svc_store.lock().unwrap();
+            let c = self.client;
+            if let Some((creation, _)) = s.objects.get(&name) {
+                let creation = *creation;
+                s.log.push(format!("c{c} list {} -> {name}", self.prefix));
+                return Some(Ok(crate::server::cloud::VerifObjectInfo { name, creation }));
+            }
+            s.log.push(format!("c{c} list {} -> {name} (gone)", self.prefix));
+        }
+    }
+}
+
+#[async_trait]
+impl crate::server::cloud::VerifService for MemService {
+    async fn put(&mut self, name: &str, value: &[u8]) -> Result<()> {
+        let f = self.enter().await;
+        if f == Some(Fault::Before) {
+            self.log(format!("put {name} -> fault-before"));
+            return Err(injected());
+        }
+        {
+            let mut s = self.store.lock().unwrap();
+            let t = s.clock;
+            s.objects.insert(name.to_string(), (t, value.to_vec()));
+        }
+        self.log(format!("put {name} -> ok"));
+        if f == Some(Fault::After) {
+            return Err(injected());
+        }
+        Ok(())
+    }
+
+    async fn get(&mut self, name: &str) -> Result<Option<Vec<u8>>> {
+        let f = self.enter().await;
+        if f == Some(Fault::Before) {
+            self.log(format!("get {name} -> fault-before"));
+            return Err(injected());
+        }
+        let v = self.store.lock().unwrap().objects.get(name).map(|x| x.1.clone());
+        self.log(format!(
+            "get {name} -> {}",
+            v.as_ref().map(|v| short(v)).unwrap_or("none".into())
+        ));
+        if f == Some(Fault::After) {
+            return Err(injected());
+        }
+        Ok(v)
+    }
+
+    async fn del(&mut self, name: &str) -> Result<()> {
+        let f = self.enter().await;
+        if f == Some(Fault::Before) {
+            self.log(format!("del {name} -> fault-before"));
+            return Err(injected());
+        }
+        self.store.lock().unwrap().objects.remove(name);
+        self.log(format!("del {name} -> ok"));
+        if f == Some(Fault::After) {
+            return Err(injected());
+        }
+        Ok(())
+    }
+
+    async fn list<'a>(
+        &'a mut self,
+        prefix: &'a str,
+    ) -> Box<dyn crate::server::cloud::VerifAsyncObjectIterator + Send + 'a> {
+        // the set of names is fixed when the listing starts (its first request)
+        let _ = self.enter().await;
+        let names: Vec<String> = self
+            .store
+            .lock()
+            .unwrap()
+            .objects
+            .keys()
+            .filter(|n| n.starts_with(prefix))
+            .cloned()
+            .collect();
+        self.log(format!("list {prefix} start ({} names)", names.len()));
+        Box::new(ListIter {
+            svc_store: self.store.clone(),
+            client: self.client,
+            names,
+            pos: 0,
+            prefix: prefix.to_string(),
+        })
+    }
+
+    async fn compare_and_swap(
+        &mut self,
+        name: &str,
+        existing_value: Option<Vec<u8>>,
+        new_value: Vec<u8>,
+    ) -> Result<bool> {
+        let f = self.enter().await;
+        if f == Some(Fault::Before) {
+            self.log(format!("cas {name} -> fault-before"));
+            return Err(injected());
+        }
+        let ok = {
+            let mut s = self.store.lock().unwrap();
+            let cur = s.objects.get(name).map(|x| x.1.clone());
+            if cur == existing_value {
+                let t = s.clock;
+                s.objects.insert(name.to_string(), (t, new_value.clone()));
+                true
+            } else {
+                false
+            }
+        };
+        self.log(format!(
+            "cas {name} {} => {} -> {ok}",
+            existing_value.as_ref().map(|v| short(v)).unwrap_or("none".into()),
+            short(&new_value)
+        ));
+        if f == Some(Fault::After) {
+            return Err(injected());
+        }
+        Ok(ok)
+    }
+}
+
+/// The real object-store server over a `MemService`.
+pub struct VerifCloud(CloudServer<MemService>);
+
+impl VerifCloud {
+    /// (reads or creates the `salt` object and derives the key: PBKDF2 once per handle)
+    pub async fn new(store: Store, client: usize, secret: Vec<u8>) -> Result<VerifCloud> {
+        Ok(VerifCloud(
+            CloudServer::new(MemService { store, client }, secret).await?,
+        ))
+    }
+    /// Run cleanup now.
+    pub async fn cleanup(&mut self) -> Result<()> {
+        self.0.verif_cleanup().await
+    }
+}
+
+#[async_trait(?Send)]
+impl Server for VerifCloud {
+    async fn add_version(
+        &mut self,
+        parent_version_id: VersionId,
+        history_segment: HistorySegment,
+    ) -> Result<(AddVersionResult, SnapshotUrgency)> {
+        self.0.add_version(parent_version_id, history_segment).await
+    }
+    async fn get_child_version(
+        &mut self,
+        parent_version_id: VersionId,
+    ) -> Result<GetVersionResult> {
+        self.0.get_child_version(parent_version_id).await
+    }
+    async fn add_snapshot(&mut self, version_id: VersionId, snapshot: Snapshot) -> Result<()> {
+        self.0.add_snapshot(version_id, snapshot).await
+    }
+    async fn get_snapshot(&mut self) -> Result<Option<(VersionId, Snapshot)>> {
+        self.0.get_snapshot().await
+    }
+}
